@@ -139,11 +139,13 @@ def moveSheet (b : Book) (i j : Nat) : Except OpErr Book :=
     | none => .error .badIndex
     | some ws => .ok { b with sheets := (b.sheets.eraseIdx i).insertIdx j ws }
 
-/-- models base/src/new_empty.rs::Model::delete_sheet (defined names are not touched: F27a) -/
+/-- models base/src/new_empty.rs::Model::delete_sheet (repaired, F27a: the defined names local to
+    the sheet are deleted with it) -/
 def deleteSheet (b : Book) (i : Nat) : Except OpErr Book :=
   if b.sheets.length = 1 then .error .onlySheet
   else if i ≥ b.sheets.length then .error .badIndex
-  else .ok { b with sheets := b.sheets.eraseIdx i }
+  else .ok { sheets := b.sheets.eraseIdx i,
+             names := b.names.filter fun d => d.scope != (b.sheets[i]?).map (·.id) }
 
 /-- models base/src/new_empty.rs::Model::get_new_sheet_id -/
 def newSheetId (b : Book) : Nat := b.sheets.foldl (fun m s => max m s.id) 1 + 1
